@@ -79,8 +79,8 @@ let handle kind c =
         | "raw" -> let b = next_n c in (name, (nat_of_int (ninit + i), CRaw b))
         | k -> failwith ("initial upload kind " ^ k)) in
     let s = next_z c in let ns = next_z c in let on = next_bool c in
-    let ap = next_bool c in let a = next_z c in
-    let cfg = { u_start = (s, ns); u_on = on; u_asof = (if ap then Some a else None); u_dir = [] } in
+    let ap = next_bool c in let a = next_z c in let zone = next_z c in
+    let cfg = { u_start = (s, ns); u_on = on; u_asof = (if ap then Some a else None); u_dir = []; u_zone = zone } in
     let plan_l = next_list c (fun c ->
         let i = next_int c in
         let k = (match next c with
